@@ -10,12 +10,12 @@ CONSTANTS
   EncChoices = {FALSE, TRUE}
   ByValueMax = 2
   AllowConflicts = FALSE
-  Features = {"observer", "apps", "gce", "badkp", "custom", "extcommit", "extsender", "newmember"}
+  Features = {"observer", "apps", "gce", "badkp", "custom", "extcommit", "extsender", "newmember", "psk"}
   Window = 1024
   Retention = 3
   BurstSizes = {1, 2}
-  PskIds = {}
-  PskValues = {"none"}
+  PskIds = {"k1"}
+  PskValues = {"none", "a"}
   JitterChoices = {99999, 0, 1, 2, 1000}
   Deviations = {"F12", "F14", "F24"}
   MaxApps = 30
